@@ -221,14 +221,16 @@ def create_redist_dict(
     realloc = {}
     for pair in sorted_scores:
       if is_outlier(pair[1], total_score, group_resource, dim - 1):
-        realloc.update({pair[0]: dim})
-        group_resource -= (dim - 1)
-        total_score -= pair[1]
+        extra_rank = dim - 1
       else:
         unit_rsc = group_resource / total_score if total_score else 0.0
-        realloc.update({pair[0]: rd(pair[1] * unit_rsc)})
-        group_resource -= (rd(pair[1] * unit_rsc) - 1)
-        total_score -= pair[1]
+        extra_rank = rd(pair[1] * unit_rsc) - 1
+      # float32 rounding (and cancellation in total_score) must never hand out
+      # more than what is left, nor a negative amount.
+      extra_rank = max(0, min(extra_rank, group_resource))
+      realloc.update({pair[0]: extra_rank + 1})
+      group_resource -= extra_rank
+      total_score -= pair[1]
 
     for key in realloc:
       assert realloc[key] <= dim, (key, realloc[key], dim)
@@ -240,10 +242,11 @@ def create_redist_dict(
     if allocated < group_resource:
       extra = group_resource - allocated
       for (key, _) in sorted_scores:
-        realloc[key] = min(realloc[key] + 1, dim)
-        extra = extra - 1 if realloc[key] + 1 < dim else extra
         if extra <= 0:
           break
+        if realloc[key] < dim:
+          realloc[key] += 1
+          extra -= 1
 
     redist_dict = alloc_fn(redist_dict, group, realloc)
 
